@@ -3,7 +3,7 @@
 
   seeded_eval.py import  C05          copy /tmp/mut-C05-out/{A,B}.* to /verif/seeded/C05_A, C05_B
   seeded_eval.py confirm C05_A ...    in a scratch worktree: demo fails with the change, passes without, test suite passes
-  seeded_eval.py detect  C05_A ...    apply to /repo, run ./check <prop> (quick, then thorough if quick is silent), undo
+  seeded_eval.py detect  C05_A ...    apply to /repo, run ./check <prop> quick (and thorough if quick is silent and SEEDED_THOROUGH=1), undo
 """
 import json
 import os
@@ -115,7 +115,7 @@ def do_detect(name, props=None):
             print(name, "patch does not apply:", r.stderr[:200])
             return
         for p in props:
-            for tier in ("quick", "thorough"):
+            for tier in (("quick", "thorough") if os.environ.get("SEEDED_THOROUGH") else ("quick",)):
                 t0 = time.time()
                 c = sh("timeout 3000 ./check %s --tier %s" % (p, tier), cwd=ROOT)
                 line = [x for x in c.stdout.split("\n") if x.startswith("VIOLATION") or x.startswith("OK")]
